@@ -27,7 +27,7 @@ BUDGET = {
     "quick": {"cases": 12000, "seconds": 90, "shards": 8},
     "thorough": {"cases": 300000, "seconds": 900, "shards": 16},
 }
-REQUIRED_OBS = ["exhaustive_small_graph_cases", "instance_history_cases", "arcs_checked", "pdf_checked", "k>n-1", "tied_kth_distance", "eliminate_positive", "eliminate_nonpositive", "all_equal_density",
+REQUIRED_OBS = ["repeated_identifier_cases", "exhaustive_small_graph_cases", "instance_history_cases", "arcs_checked", "pdf_checked", "k>n-1", "tied_kth_distance", "eliminate_positive", "eliminate_nonpositive", "all_equal_density",
                 "pre_computed_cases", "displacing_insertion", "bound_fallback_to_1"]
 MIN_NONTRIVIAL = 150
 
@@ -49,7 +49,16 @@ def generate(rng, tier, idx):
     if rng.random() < 0.25:
         N = n + int(rng.integers(0, 5))
         D = gen.make_matrix(rng, N, gen.pick(rng, ["M1", "M2", "M3", "M4"]))
-        case["pre"] = {"D": D.tolist(), "I": [int(i) for i in rng.permutation(N)[:n]]}
+        I = rng.permutation(N)[:n]
+        r = rng.random()
+        if r < 0.12:
+            I = rng.integers(0, N, size=n)          # a with-replacement resample: nodes sharing an identifier are still distinct samples
+        elif r < 0.2:
+            D = np.where(D > 0, 1e-5 if rng.random() < 0.5 else rng.choice([1e-5, 5e-6], size=D.shape), 0.0)   # exactly AT the 1e-5 threshold
+            D = np.triu(D, 1) + np.triu(D, 1).T
+        case["pre"] = {"D": D.tolist(), "I": [int(i) for i in I], "flag": str(rng.choice(["True", "True", "np.True_", "1"]))}
+    elif rng.random() < 0.1:
+        case["I_onthefly"] = [int(v) for v in rng.integers(0, max(2, n // 2), size=n)]
     return case
 
 
@@ -67,10 +76,14 @@ def check(case):
         I = np.array(pre["I"], dtype=int)
         sg = KNNSubgraph(X.copy(), np.zeros(n, dtype=int), I.copy())
         W = D[np.ix_(I, I)].copy()
+        np.fill_diagonal(W, 0.0)
         res.see("pre_computed_cases")
+        if len(set(I.tolist())) < n:
+            res.see("repeated_identifier_cases")
     else:
         D = None
-        sg = KNNSubgraph(X.copy(), np.zeros(n, dtype=int))
+        Iof = np.array(case["I_onthefly"], dtype=int) if case.get("I_onthefly") else None
+        sg = KNNSubgraph(X.copy(), np.zeros(n, dtype=int), Iof)
         W = np.array([[float(fn(X[i].copy(), X[j].copy())) if i != j else 0.0 for j in range(n)] for i in range(n)])
     if not np.all(np.isfinite(W)) or np.any(W < 0):
         return res.reject("weights-not-finite-nonnegative")
@@ -83,7 +96,8 @@ def check(case):
         safe_call(sg.create_arcs, k, fn, True, big)
         safe_call(sg.destroy_arcs)
         res.see("instance_history_cases")
-    call = safe_call(sg.create_arcs, k, fn, bool(pre), D)
+    flag = {"True": True, "np.True_": np.True_, "1": 1}.get((pre or {}).get("flag", "True"), True) if pre else False
+    call = safe_call(sg.create_arcs, k, fn, flag, D)
     if not call.ok:
         res.violate("arcs", f"C12/exception/create_arcs/{type(call.exc).__name__}", f"create_arcs(k={k}) on n={n} raised at {call.where}: {str(call.exc)[:200]}")
         return res
@@ -136,7 +150,7 @@ def check(case):
         return res
 
     if k <= n - 1:
-        call = safe_call(sg.calculate_pdf, k, fn, bool(pre), D)
+        call = safe_call(sg.calculate_pdf, k, fn, flag, D)
         if not call.ok:
             res.violate("pdf", f"C12/exception/calculate_pdf/{type(call.exc).__name__}", f"calculate_pdf(k={k}) raised at {call.where}: {str(call.exc)[:200]}")
             return res
